@@ -17,6 +17,7 @@ import PdfVerif.Lemmas.Agl
 import PdfVerif.Lemmas.SimpleFontInst
 import PdfVerif.Lemmas.Type1Roundtrip
 import PdfVerif.Lemmas.AglExact
+import PdfVerif.Lemmas.Utf8
 
 namespace PdfVerif.Props.C06
 open PdfVerif PdfVerif.SimpleFont PdfVerif.SimpleFont.Spec PdfVerif.Gen.FontCode
@@ -756,6 +757,64 @@ example : t1Puts (writeHeader rtPad rtItems) = .ok [(65, some ['A']), (-7, some 
   rw [t1_roundtrip rtPad rtItems_ok.1 rtItems rtItems_ok.2]; decide
 
 end RoundtripExample
+
+/-! ## UTF-8 and the round trip over glyph NAMES -/
+
+/-- **UTF-8 round trip**: decoding (`literal_name`: `str(bytes, "utf-8")`, strict) the encoding (`str.encode("utf-8")`)
+of ANY character list gives the list back - one to four byte forms, the boundaries 7F/80, 7FF/800, FFFF/10000, 10FFFF,
+and the surrogate gap (a `Char` is a Unicode scalar value). -/
+theorem utf8_roundtrip (cs : List Char) : utf8Chars (utf8Encode cs) = some cs :=
+  utf8Chars_encode cs
+
+open PdfVerif.Lexer PdfVerif.Roundtrip in
+/-- **Round trip over glyph names** (was: over name bytes with `utf8Chars` on the right-hand side): for every list of
+`dup <key> /<name> put` lines given by key spelling and glyph NAME - any characters, written as UTF-8 with every
+non-regular byte `#XX`-escaped - reading the written header gives exactly `(key, name)`, in order, no exception. -/
+theorem t1_roundtrip_names (pad : List SepItem) (hpad : sepOK pad) (puts : List NamedPut)
+    (h : ∀ p ∈ puts, p.ok) :
+    t1Puts (writeHeader pad (puts.map (fun p => HeaderItem.put p.spelling))) =
+      .ok (puts.map (fun p => (intValue p.sign p.digits, some p.name))) := by
+  have hm : puts.map (fun p => HeaderItem.put p.spelling) = (puts.map NamedPut.spelling).map HeaderItem.put := by
+    simp [List.map_map, Function.comp_def]
+  rw [hm, t1_roundtrip_puts pad hpad (puts.map NamedPut.spelling) (by
+    intro q hq
+    obtain ⟨p, hp, rfl⟩ := List.mem_map.mp hq
+    exact p.spelling_ok (h p hp))]
+  congr 1
+  rw [List.map_map]
+  apply List.map_congr_left
+  intro p _
+  simp only [Function.comp_def, PutSpelling.key, NamedPut.spelling, spellName, (spellBytes_ok _).2, utf8_roundtrip]
+
+section Utf8Example
+open PdfVerif.Lexer PdfVerif.Roundtrip
+-- the boundaries of the four forms and both sides of the surrogate gap
+example : utf8Encode [Char.ofNat 0x7F, Char.ofNat 0x80, Char.ofNat 0x7FF, Char.ofNat 0x800, Char.ofNat 0xD7FF,
+    Char.ofNat 0xE000, Char.ofNat 0xFFFF, Char.ofNat 0x10000, Char.ofNat 0x10FFFF] =
+    [0x7F, 0xC2, 0x80, 0xDF, 0xBF, 0xE0, 0xA0, 0x80, 0xED, 0x9F, 0xBF, 0xEE, 0x80, 0x80, 0xEF, 0xBF, 0xBF,
+     0xF0, 0x90, 0x80, 0x80, 0xF4, 0x8F, 0xBF, 0xBF] := by decide
+example : utf8Chars [0xED, 0xA0, 0x80] = none ∧ utf8Chars [0xC0, 0x80] = none ∧ utf8Chars [0xF4, 0x90, 0x80, 0x80] = none := by
+  decide
+/-- `dup 8364 /€_é.alt put` -/
+def npEx : NamedPut :=
+  { sign := [], digits := [56, 51, 54, 52], name := [Char.ofNat 0x20AC, '_', Char.ofNat 0xE9, '.', 'a', 'l', 't'],
+    g1 := [.ws 32], g2 := [], g3 := [.ws 32], g4 := [.ws 10] }
+theorem npEx_ok : npEx.ok := by
+  have g32 : SepItem.ok (.ws 32) := (by decide : isGapByte 32 = true)
+  have g10 : SepItem.ok (.ws 10) := (by decide : isGapByte 10 = true)
+  refine ⟨Or.inl rfl, ⟨by simp [npEx], ?_, by simp [npEx]⟩, ?_, by simp [npEx], ?_, ?_, by simp [npEx], ?_, by simp [npEx]⟩
+  · intro c hc; simp [npEx] at hc; rcases hc with rfl | rfl | rfl | rfl <;> decide
+  · intro i hi; simp [npEx] at hi; subst hi; exact g32
+  · intro i hi; simp [npEx] at hi
+  · intro i hi; simp [npEx] at hi; subst hi; exact g32
+  · intro i hi; simp [npEx] at hi; subst hi; exact g10
+example : renderName npEx.spelling.name =
+    [35, 69, 50, 35, 56, 50, 35, 65, 67, 95, 35, 67, 51, 35, 65, 57, 46, 97, 108, 116] := by decide +kernel
+example : t1Puts (writeHeader [] [HeaderItem.put npEx.spelling]) =
+    .ok [(8364, some [Char.ofNat 0x20AC, '_', Char.ofNat 0xE9, '.', 'a', 'l', 't'])] := by
+  have := t1_roundtrip_names [] (by intro i hi; cases hi) [npEx] (by intro p hp; simp at hp; subst hp; exact npEx_ok)
+  simpa [npEx, intValue, decimalNat] using this
+end Utf8Example
 
 /-! ## Font cache -/
 
